@@ -60,12 +60,21 @@ type c08Case struct {
 	NoIndex    int      `json:"no_index,omitempty"` // 1+i: source segment i has no .index object
 	Faults     []int    `json:"faults"`            // S3 call indices that fail
 	Inconsist  bool     `json:"inconsistent,omitempty"`
+	Chain      int      `json:"chain,omitempty"` // k>0: after a fault-free successful restore, restore the RESTORED topic to T-(k-1)
 }
 
 const (
 	c08SrcNS, c08SrcTopic = "ns1", "src"
 	c08DstNS, c08DstTopic = "ns2", "dst"
 )
+
+// which topic plays source / target in the restore under test (hop 2 of a chained
+// scenario restores ns2/dst into ns3/dst3)
+type c08Roles struct{ srcNS, srcTopic, dstNS, dstTopic string }
+
+var c08Hop1 = c08Roles{c08SrcNS, c08SrcTopic, c08DstNS, c08DstTopic}
+var c08Hop2Roles = c08Roles{c08DstNS, c08DstTopic, "ns3", "dst3"}
+var c08Hop = c08Hop1
 
 var c08Crc = crc32.MakeTable(crc32.Castagnoli)
 
@@ -330,14 +339,20 @@ func c08ParseKey(k string) (c08Key, bool) {
 		return out, false
 	}
 	switch parts[0] + "/" + parts[1] {
-	case c08SrcNS + "/" + c08SrcTopic:
+	case c08Hop.srcNS + "/" + c08Hop.srcTopic:
 		out.Space = 0
-	case c08DstNS + "/" + c08DstTopic:
+	case c08Hop.dstNS + "/" + c08Hop.dstTopic:
 		out.Space = 1
 	case c08SrcNS + "/srcx":
 		out.Space = 2
 	case c08DstNS + "/dst2":
 		out.Space = 3
+	case c08SrcNS + "/" + c08SrcTopic:
+		out.Space = 4
+	case c08DstNS + "/" + c08DstTopic:
+		out.Space = 5
+	case "ns3/dst3":
+		out.Space = 6
 	default:
 		return out, false
 	}
@@ -446,9 +461,10 @@ type c08Outcome struct {
 	Initial  []c08Obj
 }
 
-func c08Run(cs c08Case) c08Outcome {
+func c08Run(cs c08Case) c08Outcome { return c08RunFrom(cs, c08Objects(cs)) }
+
+func c08RunFrom(cs c08Case, init []c08Obj) c08Outcome {
 	mem := NewMemoryS3Client()
-	init := c08Objects(cs)
 	for _, o := range init {
 		if o.Idx {
 			_ = mem.UploadIndex(context.Background(), o.Key, o.Data)
@@ -461,8 +477,8 @@ func c08Run(cs c08Case) c08Outcome {
 		s3.faults[k] = true
 	}
 	res, err := RecoverTopicToTimestamp(context.Background(), s3, TopicRecoveryConfig{
-		SourceNamespace: c08SrcNS, SourceTopic: c08SrcTopic,
-		TargetNamespace: c08DstNS, TargetTopic: c08DstTopic,
+		SourceNamespace: c08Hop.srcNS, SourceTopic: c08Hop.srcTopic,
+		TargetNamespace: c08Hop.dstNS, TargetTopic: c08Hop.dstTopic,
 		RestoreTo:  time.UnixMilli(cs.T).Add(time.Duration(cs.TNanos)),
 		Partitions: cs.Parts,
 	})
@@ -483,8 +499,8 @@ func c08Oracle(cs c08Case, o c08Outcome) (string, string) {
 	for _, ob := range o.Initial {
 		initial[ob.Key] = ob.Data
 	}
-	dstPrefix := c08DstNS + "/" + c08DstTopic + "/"
-	srcPrefix := c08SrcNS + "/" + c08SrcTopic + "/"
+	dstPrefix := c08Hop.dstNS + "/" + c08Hop.dstTopic + "/"
+	srcPrefix := c08Hop.srcNS + "/" + c08Hop.srcTopic + "/"
 	// objects outside the target prefix never change
 	finalM := map[string][]byte{}
 	for _, ob := range o.Final {
@@ -606,6 +622,18 @@ func c08Oracle(cs c08Case, o c08Outcome) (string, string) {
 				if b.Bad != "" {
 					return "batch-invalid", fmt.Sprintf("partition %d: target object %s holds an invalid batch at base offset %d: %s", p, ob.Key, b.Hdr.FirstOffset, b.Bad)
 				}
+				// closure: the output satisfies the guard restores require of their input
+				if !cs.Inconsist && len(b.Recs) > 0 {
+					mx := b.Recs[0].Ts
+					for _, r := range b.Recs {
+						if r.Ts > mx {
+							mx = r.Ts
+						}
+					}
+					if b.Hdr.FirstTimestamp != b.Recs[0].Ts || b.Hdr.MaxTimestamp != mx {
+						return "output-header-inconsistent", fmt.Sprintf("partition %d: target batch at base offset %d has firstTimestamp %d / maxTimestamp %d but its records start at %d and reach %d", p, b.Hdr.FirstOffset, b.Hdr.FirstTimestamp, b.Hdr.MaxTimestamp, b.Recs[0].Ts, mx)
+					}
+				}
 				got = append(got, b.Recs...)
 			}
 		}
@@ -622,6 +650,38 @@ func c08Oracle(cs c08Case, o c08Outcome) (string, string) {
 		}
 	}
 	return "", ""
+}
+
+// c08SecondHop restores the restored topic (ns2/dst) into ns3/dst3 at T-(Chain-1),
+// starting from everything the first restore left in S3.  The usual oracle then runs
+// with the restored topic as the source.  (Equality with a DIRECT restore of the
+// original to the earlier cutoff is not demanded: candidate selection is per segment
+// set -- when the first restore dropped the last candidate entirely, the segment
+// before it becomes the last candidate of the second restore and is cut, whereas the
+// direct restore copies it whole.)
+func c08SecondHop(cs c08Case, o1 c08Outcome) (c08Case, c08Outcome, string, string) {
+	cs2 := cs
+	cs2.T = cs.T - int64(cs.Chain-1)
+	cs2.TNanos = 0
+	cs2.Faults = []int{}
+	c08Hop = c08Hop2Roles
+	defer func() { c08Hop = c08Hop1 }()
+	o2 := c08RunFrom(cs2, o1.Final)
+	key, what := c08Oracle(cs2, o2)
+	if key != "" {
+		key, what = "chain:"+key, fmt.Sprintf("restoring the restored topic to T-%d: %s", cs.Chain-1, what)
+	}
+	return cs2, o2, key, what
+}
+
+// c08Check: the whole oracle for one (case, fault set), chained scenario included.
+func c08Check(cs c08Case) (string, string, c08Outcome) {
+	o := c08Run(cs)
+	key, what := c08Oracle(cs, o)
+	if key == "" && cs.Chain > 0 && o.Err == "" && len(cs.Faults) == 0 && !cs.Inconsist {
+		_, _, key, what = c08SecondHop(cs, o)
+	}
+	return key, what, o
 }
 
 // ---------- generator ----------
@@ -668,13 +728,17 @@ func c08Gen(r *vRand, inconsistent bool) c08Case {
 					}
 					rec.Val = r.Bytes(r.Range(0, 3))
 					bt.Recs = append(bt.Recs, rec)
-					switch r.Intn(6) {
-					case 0:
-						ts = near() // out-of-order client timestamps
-					case 1, 2:
-						ts += int64(r.Range(0, 1))
+					switch r.Intn(8) {
+					case 0, 1:
+						ts = near() // out-of-order client timestamps (late / skewed producers)
+					case 2:
+						ts -= int64(r.Range(1, 3)) // negative delta
 					case 3:
-						ts += int64(r.Range(1, 2))
+						ts += int64(r.Range(0, 1))
+					case 4:
+						ts += int64(r.Range(1, 3))
+					case 5:
+						ts = bt.Recs[0].Ts + int64(r.Range(-2, 2)) // jitter around the batch's first record
 					}
 				}
 				if inconsistent && r.Chance(50) {
@@ -718,6 +782,9 @@ func c08Gen(r *vRand, inconsistent bool) c08Case {
 		cs.NoIndex = 1 + r.Intn(len(cs.Segs))
 	}
 	cs.Faults = []int{}
+	if !inconsistent && r.Chance(50) {
+		cs.Chain = 1 + r.Intn(3)
+	}
 	return cs
 }
 
@@ -855,26 +922,27 @@ func TestVerifC08(t *testing.T) {
 	var coq, jsons []string
 	inconsStats := [2]int{}
 	runOne := func(cs c08Case) c08Outcome {
-		o := c08Run(cs)
 		canon, _ := json.Marshal(cs)
 		if cs.Inconsist {
 			// evidence only: how often inconsistent batch headers break the prefix clause
+			o := c08Run(cs)
 			inconsStats[0]++
 			if k, _ := c08Oracle(cs, o); k != "" {
 				inconsStats[1]++
 			}
 			return o
 		}
+		key, what, o := c08Check(cs)
 		nt, tags := c08Tags(cs, o)
 		rep.Count(string(canon), nt)
 		for _, tg := range tags {
 			rep.Hist(tg)
 		}
 		rep.Sample(cs)
-		if key, what := c08Oracle(cs, o); key != "" {
+		if key != "" {
 			shr := c08Shrink(cs, key)
-			_, w2 := c08Oracle(shr, c08Run(shr))
-			if w2 == "" {
+			k2, w2, _ := c08Check(shr)
+			if k2 != key {
 				shr, w2 = cs, what
 			}
 			rep.Fail(key, key, w2, shr)
@@ -900,6 +968,22 @@ func TestVerifC08(t *testing.T) {
 			coq = append(coq, c08CoqGroup(cs, init, runs))
 			js, _ := json.Marshal(g)
 			jsons = append(jsons, string(js))
+		}
+		// chained scenario: the second hop is also a correspondence case (the restored
+		// topic, with its rewritten batches, as the model's source space)
+		if cs.Chain > 0 && !cs.Inconsist {
+			c1 := cs
+			c1.Faults = []int{}
+			if o1 := c08Run(c1); o1.Err == "" {
+				cs2, o2, _, _ := c08SecondHop(c1, o1)
+				rep.Hist("chained-second-restore")
+				c08Hop = c08Hop2Roles
+				coq = append(coq, c08CoqGroup(cs2, o2.Initial, []string{c08CoqRun(cs2, o2)}))
+				c08Hop = c08Hop1
+				g2 := c08Group{c08Case: cs, FaultSets: [][]int{{}}}
+				js, _ := json.Marshal(g2)
+				jsons = append(jsons, string(js))
+			}
 		}
 	}
 	full := func(cs c08Case, rr *vRand, emitFaults int) {
@@ -967,6 +1051,10 @@ func c08Corpus() []c08Case {
 	T := c08T0
 	rec := func(ts int64) c08Rec { return c08Rec{Ts: ts, Val: []byte{1}} }
 	return []c08Case{
+		// non-monotonic timestamps inside the cut batch (+0,+50,+20,+70, cut at +60): the
+		// rewritten header's maxTimestamp must be the running maximum (+50), not the last
+		// kept record's (+20); the chained restore to +30 then keeps exactly one record
+		{T: T + 60, Segs: []c08Seg{{Part: 0, Created: T, Interval: 1, Batches: []c08Batch{{Recs: []c08Rec{rec(T), rec(T + 50), rec(T + 20), rec(T + 70)}}}}}, Faults: []int{}, Chain: 31},
 		// cut inside the only batch
 		{T: T, Segs: []c08Seg{{Part: 0, Created: T - 1, Interval: 1, Batches: []c08Batch{{Recs: []c08Rec{rec(T - 1), rec(T), rec(T + 1)}}}}}, Faults: []int{}},
 		// first candidate created after T; second segment never copied
@@ -999,7 +1087,7 @@ func c08Shrink(cs c08Case, key string) c08Case {
 				}
 			}
 		}
-		k, _ := c08Oracle(c, c08Run(c))
+		k, _, _ := c08Check(c)
 		return k == key
 	}
 	cur := cs
